@@ -582,3 +582,47 @@ func VerifC14_ProxyFilters() {
 	}
 	verif.Cover("end")
 }
+
+// VerifC03_SilentUpstream: the upstream accepts the request and never
+// answers. Whatever timeout values the route, the request headers or the
+// protocol variables supply (zero, small, garbage, absent), a timeout is armed
+// while the request waits, and when the armed timers have expired the client
+// has exactly one reply and the request is cleaned up - it never hangs.
+func VerifC03_SilentUpstream() {
+	verif.Switches(0)
+	zzTryTimeout = time.Duration(verif.Choose("route_try_timeout", 2)) * time.Second
+	ds, sender, pool, p, ctx := zzMachine(0, false)
+	zzTryTimeout = 0
+	pool.scripted = true
+	headers := protocol.CommonHeader{}
+	vals := []string{"", "0", "5", "x", "-1"}
+	if v := vals[verif.Choose("header_global", len(vals))]; v != "" {
+		headers[types.HeaderGlobalTimeout] = v
+	}
+	if v := vals[verif.Choose("header_try", len(vals))]; v != "" {
+		headers[types.HeaderTryTimeout] = v
+	}
+	if v := vals[verif.Choose("var_global", 3)]; v != "" {
+		variable.SetString(ctx, types.VarProxyGlobalTimeout, v)
+	}
+	active0 := p.stats.DownstreamRequestActive.Count()
+	done := false
+	go func() {
+		ds.OnReceive(ctx, headers, nil, nil)
+		done = true
+	}()
+	verif.Settle()
+	verif.EngineOnly("timer expiry is driven by the engine's timer table")
+	for k := 0; k < 4 && !done; k++ {
+		verif.Assert(verif.NumTimers() > 0, "engine: the request waits for a silent upstream with no timeout armed (it hangs)")
+		if verif.NumTimers() == 0 {
+			return
+		}
+		verif.FireTimer(0)
+		verif.Settle()
+	}
+	verif.Assert(done, "engine: every armed timeout expired but the request is still waiting")
+	verif.Assert(sender.headers == 1, "a request whose upstream never answers must get exactly one (timeout) reply")
+	verif.Assert(p.stats.DownstreamRequestActive.Count() == active0-1, "DownstreamRequestActive not released after the timeout")
+	verif.Cover("end")
+}
